@@ -60,6 +60,8 @@ func runC16(c *core.Ctx) {
 				w := call.Call.Args[2]
 				if !c16workerOK(pm, w) {
 					ok, detail = false, "the worker count passed to "+g.Name()+" is not len(list) lowered only when 0 < FixedPool < len(list)"
+				} else if why := c16clampTaken(pm, w, call.Block()); why != "" {
+					ok, detail = false, "the worker count passed to "+g.Name()+" is still len(list) "+why+": with 0 < FixedPool < len(list) more than FixedPool goroutines apply f at a time"
 				}
 				if call.Call.Args[0] != ssa.Value(pm.Params[0]) || call.Call.Args[1] != ssa.Value(pm.Params[2]) {
 					ok, detail = false, "f/list are not passed through unchanged"
@@ -179,7 +181,91 @@ func c16workerOK(pm *ssa.Function, w ssa.Value) bool {
 		}
 		return false
 	}
+	if w == nil {
+		c16lastCheck = check
+		return false
+	}
 	return check(w, 0)
+}
+
+// c16lastCheck: the worker-count recogniser of the last c16workerOK(pm, nil) call (lets c16clampTaken reuse it).
+var c16lastCheck func(ssa.Value, int) bool
+
+// c16clampTaken: wherever the worker count handed to an implementation is the unclamped len(list), the path is one on
+// which the pool-size clamp cannot apply: option == nil, FixedPool <= 0 or FixedPool >= len(list). Returns "" when that
+// holds, else a description of the offending path.
+func c16clampTaken(pm *ssa.Function, w ssa.Value, at *ssa.BasicBlock) string {
+	isLen := func(v ssa.Value) bool {
+		call, ok := core.Resolve(v).(*ssa.Call)
+		return ok && core.IsBuiltin(&call.Call, "len") && call.Call.Args[0] == ssa.Value(pm.Params[2])
+	}
+	excluded := func(facts []core.Cond) bool {
+		for _, f := range facts {
+			m, ok := core.AsCmp(f)
+			if !ok {
+				continue
+			}
+			for _, c := range []core.Cmp{m, {X: m.Y, Y: m.X, Op: c16mirror(m.Op)}} {
+				if c.Op == token.EQL && core.IsNilConst(c.Y) && core.Resolve(c.X) == ssa.Value(pm.Params[1]) {
+					return true
+				}
+				if core.FieldKey(c.X) != "PMapOption.FixedPool" {
+					continue
+				}
+				if (c.Op == token.LEQ && core.IsIntConst(c.Y, 0)) || (c.Op == token.LSS && core.IsIntConst(c.Y, 1)) || (c.Op == token.GEQ && isLen(c.Y)) {
+					return true
+				}
+			}
+		}
+		return false
+	}
+	c16workerOK(pm, nil)
+	isWorkerCount := func(v ssa.Value) bool { return c16lastCheck != nil && c16lastCheck(v, 0) }
+	bad := ""
+	var walk func(v ssa.Value, facts []core.Cond, depth int)
+	walk = func(v ssa.Value, facts []core.Cond, depth int) {
+		if depth > 5 || bad != "" {
+			return
+		}
+		if phi, isPhi := v.(*ssa.Phi); isPhi {
+			for i, e := range phi.Edges {
+				// a defensive clamp that can never fire (a proper worker count found negative or above len(list))
+				infeasible := false
+				for _, m := range core.EdgeCmps(phi.Block().Preds[i]) {
+					if m.X == ssa.Value(phi) || !isWorkerCount(m.X) {
+						continue
+					}
+					if m.Op == token.LSS && core.IsIntConst(m.Y, 0) || m.Op == token.LEQ && core.IsIntConst(m.Y, -1) || m.Op == token.GTR && isLen(m.Y) {
+						infeasible = true
+					}
+				}
+				if infeasible {
+					continue
+				}
+				walk(e, append(append([]core.Cond{}, facts...), core.EdgeFactsOn(phi.Block().Preds[i], phi.Block())...), depth+1)
+			}
+			return
+		}
+		if isLen(v) && !excluded(facts) {
+			bad = "on a path where neither option == nil nor FixedPool <= 0 nor FixedPool >= len(list) is known"
+		}
+	}
+	walk(w, core.EdgeFacts(at), 0)
+	return bad
+}
+
+func c16mirror(op token.Token) token.Token {
+	switch op {
+	case token.LSS:
+		return token.GTR
+	case token.GTR:
+		return token.LSS
+	case token.LEQ:
+		return token.GEQ
+	case token.GEQ:
+		return token.LEQ
+	}
+	return op
 }
 
 func c16isWorkerLen(pm *ssa.Function, v ssa.Value) bool {
